@@ -573,7 +573,13 @@ SMALL_STMTS = [
     ("import", [("mb", None), ("ma", None)]), ("import", [("os.path", None)]),
     ("import", [("ma", "ma")]),                                   # `import ma as ma`
     ("import", [("os", None), ("ma", "x"), ("ma", "q"), ("ma", None)]),   # loses `os` after `import os`: rest re-sorted
+    # fixes._import_order_matters (cc67280 / 95f12ea): two aliases of ONE statement bind q (unsorted, so a sort would show)
+    ("from", "ma", [("y", "q"), ("x", "q")]), ("import", [("mb", "q"), ("ma", "q")]),
 ]
+# star imports: only the sort rules see them here (the models of the other rules have no star import; those rules
+# meet star imports in the tree cases and in the sweep)
+STAR_STMTS = [("from", "mb", [("*", None)]), ("from", "ma", [("*", None)])]
+SORT_RIDS = ("RSort", "RSortAliases", "RSortAll")
 # all triples over four statements that (re)bind x: duplicate detection must follow the CURRENT binding
 TRIPLE_STMTS = [("import", [("ma", "x")]), ("from", "mb", [("x", None)]), ("import", [("ma", None)]),
                 ("import", [("mb", "x")])]
@@ -587,7 +593,7 @@ def stmt_text(s):
 
 def stmt_bound(s):
     if s[0] == "from":
-        return [a or n for n, a in s[2]]
+        return [a or n for n, a in s[2] if n != "*"]
     return [a or n.split(".")[0] for n, a in s[1]]
 
 
@@ -621,8 +627,12 @@ def coq_stmt(s, ids, stdlib):
                                for n, a in s[1]])
 
 
+def has_star_stmt(stmts):
+    return any(s[0] == "from" and any(n == "*" for n, _ in s[2]) for s in stmts)
+
+
 def stmts_strings(*lists):
-    out = set()
+    out = {"*"}        # always rank 0: ImportsModel.STAR = 0 ("*" sorts before every identifier / dotted name)
     for l in lists:
         for s in l:
             if s[0] == "from":
@@ -635,11 +645,13 @@ def stmts_strings(*lists):
     return out
 
 
-def random_stmts(rnd):
+def random_stmts(rnd, stars=False):
     out = []
     names = ["x", "y", "z", "_u", "w"]
     for _ in range(rnd.randint(1, 5)):
-        if rnd.random() < 0.55:
+        if stars and rnd.random() < 0.2:
+            out.append(("from", rnd.choice(["ma", "mb", "os.path", "pk.s1"]), [("*", None)]))
+        elif rnd.random() < 0.55:
             m = rnd.choice(STMT_MODS)
             als = [(rnd.choice(names), rnd.choice([None, None, None, "x", "q", "y"])) for _ in range(rnd.randint(1, 3))]
             out.append(("from", m, [(n, a) for n, a in als]))
@@ -800,8 +812,11 @@ def stmt_rule_cases(impl, lists_useds, stdlib):
     cs, labels = [], []
     for stmts, used in lists_useds:
         src = stmts_source(stmts, used)
+        star = has_star_stmt(stmts)
         for rule, rid, ordered in RULES:
             if rid == "RDupAll" and attr_as_self_import(stmts):
+                continue
+            if star and rid not in SORT_RIDS:
                 continue
             out = impl.run(rule, src)
             if isinstance(out, tuple):
@@ -824,6 +839,13 @@ def small_stmt_lists(maxlen):
     for n in range(1, maxlen + 1):
         for combo in itertools.product(SMALL_STMTS, repeat=n):
             out.append(list(combo))
+    # runs with a star import (sort rules only): a star import next to / between every other statement form
+    for st in STAR_STMTS:
+        out.append([st])
+        for s in SMALL_STMTS + STAR_STMTS:
+            out += [[st, s], [s, st]] if s != st else [[st, s]]
+    for a, b in itertools.product(SMALL_STMTS[:4] + SMALL_STMTS[5:8], repeat=2):
+        out += [[a, STAR_STMTS[0], b]]
     return out
 
 
@@ -1134,6 +1156,14 @@ SPECIALS = [
     ("builtin-star", "from _weakref import *\nprint(ref, proxy)\n", ["ref", "proxy"], ALL_RULES),
     ("future-first", "from __future__ import annotations\nimport mb\nimport ma\nprint(ma, mb)\n", ["ma", "mb"], ALL_RULES),
     ("import-as-self", "import ma as ma\nimport json as json, os as os\nprint(ma, json, os)\n", ["ma", "json", "os"], ALL_RULES),
+    # F18-1 / F18-40 (repaired by cc67280 / 95f12ea: fixes._import_order_matters): must pass from now on
+    ("sort-same-name", "from mb import x\nfrom ma import x\nprint(x)\n", ["x"], ALL_RULES),
+    ("sort-same-name-3", "import json\nfrom mb import x\nimport ma as x\nprint(x, json)\n", ["x", "json"], ALL_RULES),
+    ("sort-two-stars", "from math import *\nfrom cmath import *\nprint(sqrt(-1), pi)\n", ["sqrt", "pi"], ALL_RULES),
+    ("sort-star-explicit", "from mb import x\nfrom ma import *\nimport json\nprint(x, json)\n", ["x", "json"], ALL_RULES),
+    ("sort-dotted-head", "import os.path\nimport os\nprint(os)\n", ["os"], ALL_RULES),
+    ("alias-same-name", "from ma import y as v, x as v\nprint(v)\n", ["v"], ALL_RULES),
+    ("alias-same-name-import", "import mb as q, ma as q\nprint(q)\n", ["q"], ["sort_imports", "remove_unused_imports"]),
 ]
 
 
@@ -1370,7 +1400,7 @@ def check(run: common.Run):  # noqa: C901
     n_small_lists = len(lu)
     n_rand = 150 if run.tier == "quick" else 3000
     while n_rand:
-        l = random_stmts(rnd)
+        l = random_stmts(rnd, stars=n_rand % 4 == 0)
         if no_self_dups(l):
             lu.append((l, useds_for(l, rnd)[0])); n_rand -= 1
     cs, labels = stmt_rule_cases(impl, lu, stdlib)
@@ -1440,8 +1470,10 @@ def check(run: common.Run):  # noqa: C901
               f"forms (exhaustive, {len(small)} trees), + {len(batch)} seeded random trees (modules ma mb pk/__init__ "
               "pk.s1 pk.s2 mc, re-export chains, aliases, star imports, __all__ as list/tuple) x 8 random clients; for "
               "each: resolve vs CPython namespaces, fix_starred_imports and fix_reimported_names vs model. statement "
-              f"rules: ALL lists of <= {maxlen} statements over 10 statement forms x 2-3 used-sets (exhaustive, "
-              f"{n_small_lists}) + random lists, x 6 rules. Non-trivial = the real rule changed the client; distinct by "
+              f"rules: ALL lists of <= {maxlen} statements over {len(SMALL_STMTS)} statement forms (two of them bind one name "
+              "twice in ONE statement) x 2-3 used-sets, + runs with a star import next to / between every form for the "
+              f"sort rules (exhaustive, {n_small_lists}) + random lists, x {len(RULES)} rules (6 single rules, "
+              "fix_duplicate_imports and sort_imports as a whole). Non-trivial = the real rule changed the client; distinct by "
               "(rule, tree, source)."),
         samples=[{"modules": {m["name"]: render_module(m) for m in sample_small[0]["mods"]},
                   "client": client_source(sample_small[1][1], sample_small[2][1]),
